@@ -217,7 +217,7 @@ def insertStateChunks (dst src : Plane) (width : Nat) : Nat → Nat → Nat → 
 
 def BVS.insertState (d : BVS) (s : BVS) (offset size : Nat) : BVS :=
   let width := if size ≠ 0 then size else s.size
-  { d with planes := List.zipWith (fun dp sp => insertStateChunks dp sp width (2 * (width / 64 + 2)) offset 0) d.planes s.planes }
+  { d with planes := List.zipWith (fun dp sp => insertStateChunks dp sp width (width + 1) offset 0) d.planes s.planes }
 
 def BVS.append (d s : BVS) : BVS :=
   (d.resize (d.size + s.size)).copyRange d.size s 0 s.size
